@@ -14,6 +14,8 @@ item ::= <str>        unparsed Python str, e.g. 123.120.125 for '{x}', 32 for ' 
        | c:<str>      the object TexCmd(<str>)
        | n:<str>      the object TexNamedEnv(<str>)
        | x:<str>      the object TexText(<str>)
+       | h<k>         the SAME object at every occurrence in the history:
+                      h2 = one BracketGroup('b'), every other h<k> = one BraceGroup('a')
 op   ::= a:<item>             append(item)
        | e:<item>,<item>,..   extend([..])         (`e:` alone: extend([]))
        | i:<int>:<item>       insert(int, item)
@@ -32,6 +34,10 @@ Answer: for every operation `<out> @ <state>`, joined by `;`, where
 out   ::= none | item <sexpr> | slice <state> | string <str> | TypeError | ValueError | IndexError
 state ::= lst=<str>,<str>,..|all=<str>,<str>,..      (`str()` of every entry)
 ```
+
+Identity: every occurrence of a `g:`/`g@`/`c:`/`n:`/`x:` item is a fresh object (identity
+`Oid.ext (2 * (4096 * opIndex + itemIndex) + 1)`), `h<k>` is the object `Oid.ext (2 * k)`.
+Identities do not show in the answers, only in what the class does with `.all`.
 
 `<sexpr>` is the tree notation of `Driver.lean` (`showExpr`), `(t -1 <str>)` for a bare
 string.
@@ -66,11 +72,11 @@ partial def showExprs (es : List Expr) : String := " ".intercalate (es.map showE
 end
 
 def showItem : ArgItem → String
-  | .grp e => showExpr e
+  | .grp o => showExpr o.e
   | .ws s => s!"(t -1 {encStr s})"
 
 def showState (st : ArgsSt) : String :=
-  "lst=" ++ ",".intercalate (st.lst.map fun e => encStr (ser e)) ++
+  "lst=" ++ ",".intercalate (st.lst.map fun o => encStr (ser o.e)) ++
   "|all=" ++ ",".intercalate (st.all.map fun it => encStr it.txt)
 
 def showOut : ArgsOut → String
@@ -82,19 +88,27 @@ def showOut : ArgsOut → String
   | .valueError => "ValueError"
   | .indexError => "IndexError"
 
-/-- An item from its `:`-separated pieces. -/
-def decItem : List String → Option ArgIn
-  | [w] => (decStr w).map .str
-  | ["g", w] => (decStr w).bind fun s => (parseGroup s).map .grp
-  | ["c", w] => (decStr w).map fun s => .grp (.cmd s [] [] (-1))
-  | ["n", w] => (decStr w).map fun s => .grp (.nenv s [] [] (-1))
-  | ["x", w] => (decStr w).map fun s => .grp (.text s (-1))
+/-- An item from its `:`-separated pieces; `occ` numbers the occurrence (fresh identity). -/
+def decItem (occ : Nat) (ws : List String) : Option ArgIn :=
+  let fresh (e : Expr) : ArgIn := .grp ⟨.ext (2 * occ + 1), e⟩
+  match ws with
+  | [w] =>
+    if w.startsWith "h" then do
+      let k ← (w.drop 1).toString.toNat?
+      let e : Expr := if k == 2 then .group .bracket [.text [98] (-1)] (-1)
+                      else .group .brace [.text [97] (-1)] (-1)
+      pure (.grp ⟨.ext (2 * k), e⟩)
+    else (decStr w).map .str
+  | ["g", w] => (decStr w).bind fun s => (parseGroup s).map fresh
+  | ["c", w] => (decStr w).map fun s => fresh (.cmd s [] [] (-1))
+  | ["n", w] => (decStr w).map fun s => fresh (.nenv s [] [] (-1))
+  | ["x", w] => (decStr w).map fun s => fresh (.text s (-1))
   | [tag, w] =>
     if tag.startsWith "g@" then do
       let p ← (tag.drop 2).toString.toInt?
       let s ← decStr w
       match parseGroup s with
-      | some (.group k b _) => pure (.grp (.group k b p))
+      | some (.group k b _) => pure (fresh (.group k b p))
       | _ => none
     else none
   | _ => none
@@ -102,17 +116,20 @@ def decItem : List String → Option ArgIn
 def decBound (w : String) : Option (Option Int) :=
   if w == "_" then some none else w.toInt?.map some
 
-def decOp (w : String) : Option ArgsOp :=
+/-- Operation number `n` of the history. -/
+def decOp (n : Nat) (w : String) : Option ArgsOp :=
+  let occ (j : Nat) : Nat := 4096 * n + j
   match w.splitOn ":" with
-  | "a" :: it => (decItem it).map .append
+  | "a" :: it => (decItem (occ 0) it).map .append
   | ["e", ""] => some (.extend [])
   | "e" :: rest =>
-    (((":".intercalate rest).splitOn ",").mapM fun x => decItem (x.splitOn ":")).map .extend
+    ((((":".intercalate rest).splitOn ",").zipIdx).mapM fun (xj : String × Nat) =>
+      decItem (occ xj.2) (xj.1.splitOn ":")).map .extend
   | "i" :: i :: it => do
     let i ← i.toInt?
-    let it ← decItem it
+    let it ← decItem (occ 0) it
     pure (.insert i it)
-  | "r" :: it => (decItem it).map .remove
+  | "r" :: it => (decItem (occ 0) it).map .remove
   | ["p"] => some (.pop (-1))
   | ["p", i] => i.toInt?.map .pop
   | ["v"] => some .reverse
@@ -137,8 +154,8 @@ def argsHandle (words : List String) : String :=
   match words with
   | [] => ""
   | [w] =>
-    match (w.splitOn ";").mapM ArgsDrv.decOp with
-    | some ops => ";".intercalate (ArgsDrv.runShow .empty ops)
+    match ((w.splitOn ";").zipIdx).mapM (fun (xn : String × Nat) => ArgsDrv.decOp xn.2 xn.1) with
+    | some ops => ";".intercalate (ArgsDrv.runShow (.empty 0) ops)
     | none => "bad-arg"
   | _ => "bad-op"
 
